@@ -7,6 +7,7 @@ Every project is run K times in one process (Go re-randomises each map range), i
 processes, and concurrently with other projects; verdict, message, index, line, trace and
 the exact JSON bytes are compared between the real runs."""
 import json
+import os
 import random
 
 import apidoc
@@ -196,6 +197,25 @@ def main(tier):
             chk.violation("result of %s differs when %s were processed before it in the same process (fault found at %s): alone %s trace %s, after them %s trace %s" % (
                 root, warm, stagekind, rel.describe(a), (a.get("err") or {}).get("trace"), rel.describe(b), (b.get("err") or {}).get("trace")),
                 {"kind": "determinism_warm", "case": warm_c, "observed_alone": a, "observed_after": b, "signature": sig}, sig)
+    # the same project many times in a process that may hold only 96 open files and never collects garbage: a project with
+    # 40 included files read 12 times gives the same result every time
+    incs = {"inc/f%02d.jst" % k: "TYPE @zinc%d any\n" % k for k in range(40)}
+    big = {"main.jst": "JSIGHT 0.3\n" + "".join("INCLUDE %s\n" % f for f in sorted(incs)) + "GET /zx\n  200 any\n"}
+    big.update(incs)
+    nested = {"main.jst": "JSIGHT 0.3\nINCLUDE n/a.jst\nGET /zy\n  200 any\n", "n/a.jst": "TYPE @zn1 any\nINCLUDE b.jst\n", "n/b.jst": "TYPE @zn2 any\nINCLUDE c/c.jst\n",
+              "n/c/c.jst": "TYPE @zn3 any\n"}
+    fobs = harness("run", [{"id": "fd_many", "files": {k: b64(v) for k, v in big.items()}, "root": "main.jst", "reps": 12},
+                           {"id": "fd_nested", "files": {k: b64(v) for k, v in nested.items()}, "root": "main.jst", "reps": 60}],
+                   nproc=1, env=dict(os.environ, VERIF_NOFILE="96"))
+    for cid in ("fd_many", "fd_nested"):
+        o = fobs[cid]
+        chk.evaluations += o.get("reps", 1)
+        chk.traces += 1
+        chk.nontrivial.add(cid)
+        if o.get("rep_diff") or o["outcome"] != "ok":
+            sig = {"kind": "repetition", "msg": ((o.get("err") or {}).get("msg") or "")[:60], "what": "repetition in one process differs", "detail": "few-file-descriptors"}
+            chk.violation("a project with included files processed repeatedly in one process (at most 96 open files, no garbage collection): %s %s" % (
+                rel.describe(o), o.get("rep_diff", "")[:300]), {"kind": "determinism_fd", "case": cid, "signature": sig}, sig)
     import base64
     for n, (kind, t) in enumerate(texts):
         cid = "d%d" % n
